@@ -314,7 +314,7 @@ structure Cfg where
   /-- `-O2`: named results that are not captured live in SSA registers; after a `siglongjmp` they have the
       value they had when `sigsetjmp` was called -/
   o2 : Bool
-  /-- the `rethrowBlk` calls `SetThreadDefer(link)` before `Rethrow(link)` (proposed repair fixes/C04-1.diff) -/
+  /-- `Rethrow(link)` calls `SetThreadDefer(link)` before it longjmps to `link` (proposed repair fixes/C04-1.diff) -/
   tlsFix : Bool
   deriving Repr
 
@@ -361,6 +361,13 @@ def rethrow (link : Option Nat) (st : MSt) : Option Esc :=
     match link with
     | none => some (.exit v)
     | some l => some (.jump l)
+
+/-- `Rethrow(link)` as the compiled code calls it, with its effect on the thread's defer head:
+    the unrepaired runtime leaves the head alone; the repaired one makes `link` the head before jumping to it. -/
+def rethrowSt (cfg : Cfg) (link : Option Nat) (st : MSt) : MSt × Option Esc :=
+  match rethrow link st with
+  | some (.jump l) => (if cfg.tlsFix then { st with tls := some l } else st, some (.jump l))
+  | r => (st, r)
 
 /-- per-activation working state -/
 structure Act where
@@ -493,15 +500,15 @@ def finish (cfg : Cfg) (callFn : CallFn) (f : Fn) (a : Act) (st : MSt) (be : Bod
       | .completed =>
         let st := { st with tls := a.link }                 -- SetThreadDefer(link)
         if u.rethrow then
-          match rethrow a.link st with
-          | some e => (st, .esc e)
-          | none => (st, .ret (st.loc a.id).r)              -- Rethrow returned: `recov` block loads the named results
+          match rethrowSt cfg a.link st with
+          | (st, some e) => (st, .esc e)
+          | (st, none) => (st, .ret (st.loc a.id).r)        -- Rethrow returned: `recov` block loads the named results
         else (st, .ret (st.loc a.id).r)
       | .landedLast =>
-        let st := if cfg.tlsFix then { st with tls := a.link } else st
-        match rethrow a.link st with
-        | some e => (st, .esc e)
-        | none => (st, .ret (st.loc a.id).r)
+        -- `rethrowBlk` entered through `Reth`: no `SetThreadDefer(link)` on this path
+        match rethrowSt cfg a.link st with
+        | (st, some e) => (st, .esc e)
+        | (st, none) => (st, .ret (st.loc a.id).r)
 
 /-- call function `g` -/
 def execFn (cfg : Cfg) (p : Prog) : Nat → Nat → List Int → Option Nat → MSt → MSt × Res
